@@ -223,12 +223,44 @@ def one_class(cls, x, cfg, NFFT, sampling, c, rtol=1e-6):
     return compare(out0, out1, c, rtol)
 
 
+
+# ------------------------------------------------------------------ aic_eigen / mdl_eigen: the formulas of Proofs/CriteriaEigenR_C03.v
+def eigen_criterion_model(s, N, which):
+    """the Coq definitions aic_eigen_at / mdl_eigen_at, literally (lnratio of the tail s[k+1:], d = len(tail)+1 = n-k)"""
+    s = np.asarray(s, dtype=float); n = len(s); out = []
+    for k in range(0, n - 1):
+        t = s[k + 1:]; d = float(len(t) + 1)
+        lnratio = np.sum(np.log(t)) / d - np.log(np.sum(t) / d)
+        if which == 'aic':
+            out.append(-2.0 * (n - k) * N * lnratio + 2.0 * k * (2.0 * n - k))
+        else:
+            out.append(-(n - k) * N * lnratio + 0.5 * k * (2.0 * n - k) * np.log(N))
+    return np.array(out)
+
+
+def one_criterion(which, s, N, m, rtol=1e-8):
+    """failures of: code == formula model; code(m*s) == code(s) + const (2 N ln m / N ln m) at every index (hence same argmin)"""
+    from spectrum.criteria import aic_eigen, mdl_eigen
+    f = aic_eigen if which == 'aic' else mdl_eigen
+    a0 = np.array(f(s, N), dtype=float); a1 = np.array(f(m * s, N), dtype=float); mod = eigen_criterion_model(s, N, which)
+    shift = (2.0 if which == 'aic' else 1.0) * N * np.log(m)
+    scale = max(np.max(np.abs(mod)), abs(shift), 1.0)
+    bad = []
+    if not np.all(np.isfinite(a0)) or np.max(np.abs(a0 - mod)) > rtol * scale:
+        bad.append(('model', '%s_eigen(s, N) differs from the formula the theorem eigen_criteria_shift is about' % which))
+    if not np.all(np.isfinite(a1)) or np.max(np.abs(a1 - (mod + shift))) > rtol * scale:
+        bad.append(('shift', '%s_eigen(m*s, N) is not %s_eigen(s, N) + %s N ln m at every index' % (which, which, '2' if which == 'aic' else '1')))
+    return bad
+
+
 def replay(rep):
     r = rep['replay']; x = vlib.unhexv(r['x']); c = complex(*[float.fromhex(t) for t in r['c']])
     if r['datatype'] == 'real':
         x = np.real(x); c = c.real
-    cfg = r['cfg']
+    cfg = r.get('cfg')
     try:
+        if r['form'] == 'criterion':
+            return not one_criterion(r['estimator'], np.real(x), r['N'], float.fromhex(r['m']))
         if r['form'] == 'function':
             return not one_function(r['estimator'], x, cfg, c)
         return not one_class(r['estimator'], x, cfg, r.get('NFFT'), r.get('sampling', 1.0), c)
@@ -435,6 +467,23 @@ def run(ctx):
             continue
         for oname, what in compare(out0, out1, c, 1e-5):
             ctx.violation('scale/%s/%s' % (name, oname), '%s (order %d), output %s: %s' % (name, big, oname, what), rep)
+
+    # ---------------- aic_eigen / mdl_eigen: the code is the formula of eigen_criteria_shift, and shifts by a constant under s -> m*s
+    for it in range(ctx.q(60, 600)):
+        which = ['aic', 'mdl'][it % 2]
+        n = int(rng.integers(2, 12)) if it % 3 else int(rng.integers(60, 140))
+        sv = np.sort(np.exp(rng.normal(0.0, 1.5, size=n)))[::-1].copy()
+        N = int(2 * rng.integers(8, 101)); m = float(10.0 ** rng.uniform(-3, 3))
+        ctx.count('search/criterion/%s_eigen/%s' % (which, 'short' if n < 12 else 'long'))
+        ctx.case(('crit', which, sv.tobytes(), N, m), nontrivial=(n >= 3), sample={'estimator': which + '_eigen', 'n': n, 'N': N, 'm': m})
+        rep = {'form': 'criterion', 'estimator': which, 'x': vlib.hexv(np.asarray(sv, dtype=complex)), 'datatype': 'real', 'N': N,
+               'm': m.hex(), 'c': [m.hex(), (0.0).hex()]}
+        try:
+            bad = one_criterion(which, sv, N, m)
+        except Exception as e:
+            bad = [('raises', '%s_eigen raises %s' % (which, type(e).__name__))]
+        for kind, what in bad:
+            ctx.violation('scale/%s_eigen/%s' % (which, kind), what, rep)
 
     # ---------------- every PSD class
     nextreme = 2 * len(E.CLASSES)
